@@ -44,12 +44,26 @@ FI = "factor_intermediates:"
 # abstract values shared by the scenarios
 
 
-def mk_index(name, space=None, spin=""):
-    """Abstract ``Index``: a record with the attributes the library reads."""
-    space = space or space_name(name)
-    o = Obj(None, name)
-    o.attrs.update(name=name, space=space, spin=spin, space_and_spin=(space, spin))
+def rec(_cls, _name, **attrs):
+    """abstract record whose attributes may be called ``name``/``cls``"""
+    o = Obj(_cls, _name)
+    o.attrs.update(attrs)
     return o
+
+
+_INDEX = {}
+
+
+def mk_index(name, space=None, spin=""):
+    """Abstract ``Index``: an (interned, never mutated) record with the attributes the library reads; two records are
+    the same index iff they are the same object."""
+    space = space or space_name(name)
+    key = (name, space, spin)
+    if key not in _INDEX:
+        o = Obj(None, name)
+        o.attrs.update(name=name, space=space, spin=spin, space_and_spin=(space, spin), _classes=("Index",), dummy_index=0)
+        _INDEX[key] = o
+    return _INDEX[key]
 
 
 def space_name(n):
@@ -359,101 +373,1005 @@ def _r11a_validate(ctx):
                       "expanded on indices of the wrong space", key=f"validate {given}")
 
 
-def r11b(ctx):
-    rule = "R11b"
-    # t2_1.factor_itmd
-    fn = ctx.model.fn("intermediates:t2_1.factor_itmd")
-    lp = [n for n in walk_fn(fn) if isinstance(n, ast.For) and U(n.iter) == "expr.terms"]
-    ctx.floor(rule, "term loop in t2_1.factor_itmd", len(lp), 1)
+# ---------------------------------------------------------------------------
+# R11b: factoring conserves the value (every term of the input enters the result exactly once, unchanged or as
+# remainder * prefactor * tensor with a prefactor that makes the product equal to the term)
 
-    def ev(acc):
-        def is_event(n):
-            return isinstance(n, ast.AugAssign) and isinstance(n.op, ast.Add) and U(n.target) == acc
-        return is_event
-    acc, drops = common.loop_conservation(ctx, rule, fn, lp[0], U(lp[0].target), is_event=ev("factored"))
-    common.lost(ctx, rule, lp[0], U(lp[0].target), drops)
-    ft = [n for n in walk_fn(fn) if isinstance(n, ast.AugAssign) and U(n.target) == "factored_term"]
-    vals = sorted(U(n.value).replace(" ", "").replace("\n", "") for n in ft)
-    ctx.check(rule, fn, vals == ["Pow(self.tensor(indices=eri.idx,return_sympy=True)/t2.pref,min_exp)", "term.pref*eri*term.num/denom"],
-              "factored term = (t2/pref)^n * pref * remaining eri * num / remaining denom", f"factored term assembled from {vals}", key="t2_1 assembly")
-    a = {U(x.targets[0]): U(x.value) for x in walk_fn(fn) if isinstance(x, ast.Assign)}
-    ctx.check(rule, fn, a.get("min_exp") == "min(eri_exp, bk_exponent)" and a.get("denom") == "term.cancel_denom_brackets(denom_brackets_to_remove)"
-              and a.get("eri") == "term.cancel_eri_objects(eri_obj_to_remove)", "integral and bracket removed equally often",
-              "removal bookkeeping of t2_1 changed", key="t2_1 removal")
-    ex = sorted(U(c.args[0]) for c in calls_in(fn) if call_name(c) == "extend")
-    ctx.check(rule, fn, ex == ["(bk_idx for _ in range(min_exp))", "(eri_idx for _ in range(min_exp))"], "both removed min_exp times",
-              f"{ex}", key="t2_1 multiplicity")
-    mt = [n for n in walk_fn(fn) if isinstance(n, ast.If) and U(n.test) == "bk == sub_t2_denom"]
-    ctx.check(rule, fn, len(mt) == 1, "bracket must equal the substituted t2 denominator", "denominator comparison changed", key="t2_1 denom match")
-    # _factor_short_intermediate
-    fs = ctx.model.fn(FI + "_factor_short_intermediate")
-    lp = [n for n in walk_fn(fs) if isinstance(n, ast.For) and U(n.iter) == "terms"]
-    ctx.floor(rule, "term loop in _factor_short_intermediate", len(lp), 1)
-    acc, drops = common.loop_conservation(ctx, rule, fs, lp[0], U(lp[0].target), is_event=ev("factored"))
-    common.lost(ctx, rule, lp[0], U(lp[0].target), drops)
-    adds = sorted({U(n.value) for n in walk_fn(lp[0]) if isinstance(n, ast.AugAssign) and U(n.target) == "factored"})
-    ctx.check(rule, fs, adds == ["factored_term", "term.expr"], "either the unchanged term or the factored term is added", f"adds {adds}",
-              key="short adds")
-    a = {U(x.targets[0]): U(x.value).replace("\n", "").replace(" ", "") for x in walk_fn(fs) if isinstance(x, ast.Assign)}
-    ctx.check(rule, fs, a.get("pref") == "term.pref*variant_data['factor']/itmd.pref", "prefactor = term pref * factor / itmd pref",
-              f"short prefactor {a.get('pref')}", key="short pref")
-    ctx.check(rule, fs, a.get("factored_term") == "_build_factored_term(remainder,pref,itmd_cls,itmd_indices)", "factored term from remainder, pref, tensor",
-              "short assembly changed", key="short assembly")
-    ctx.check(rule, fs, a.get("itmd_indices") == "tuple((variant_data['sub'].get(s,s)forsinget_symbols(itmd_cls.default_idx)))",
-              "intermediate indices = images of the default indices", "short itmd indices changed", key="short indices")
-    # _factor_long_intermediate
-    fl = ctx.model.fn(FI + "_factor_long_intermediate")
-    tail = [n for n in walk_fn(fl) if isinstance(n, ast.For) and U(n.iter) == "enumerate(terms)" and any(
-        isinstance(s, ast.If) and U(s.test) == "term_i not in factored_terms" for s in n.body)]
-    ok = len(tail) == 1 and [U(s) for s in tail[0].body[0].body] == ["factored_terms.add(term_i)", "result += term"]
-    ctx.check(rule, fl, ok, "terms not involved in a factorisation are added unchanged at the end", "tail loop changed", key="long tail")
-    asr = [n for n in walk_fn(fl) if isinstance(n, ast.Assert) and U(n.test) == "len(factored_terms) == len(terms)"]
-    ctx.check(rule, fl, len(asr) == 1, "every term accounted for", "accounting assertion removed", key="long assert")
-    a = {U(x.targets[0]): U(x.value).replace("\n", "").replace(" ", "") for x in walk_fn(fl) if isinstance(x, ast.Assign)}
-    ctx.check(rule, fl, a.get("prefactor") == "term.pref*variant_data['factor']*Rational(1,len(matching_itmd_terms))/itmd[itmd_i].pref",
-              "prefactor normalised over the itmd terms the match spreads to", f"long prefactor {a.get('prefactor')}", key="long pref")
-    ctx.check(rule, fl, a.get("unit_factorization_pref") == "itmd[itmd_i].pref*variant_data['factor']*len(matching_itmd_terms)",
-              "unit factorisation prefactor", f"{a.get('unit_factorization_pref')}", key="long unit")
-    for name in ("_factor_complete", "_factor_mixed_prefactors"):
-        f = ctx.model.fn(FI + name)
-        up = [c for c in calls_in(f) if call_name(c) == "update" and U(c.func.value) == "factored_terms"]
-        ok = len(up) == 1 and U(up[0].args[0]) == "term_list"
-        blk = enclosing_stmt(up[0])._parent.body if up else []
-        texts = [U(s) for s in blk]
-        ok = ok and "result += new_term" in texts and "intermediate_variants.remove_used_terms(term_list)" in texts
-        ctx.check(rule, f, ok, f"{name}: used terms marked exactly when the factored term is added", f"{name}: bookkeeping changed", key=f"{name} pairing")
-        nt = [x for x in walk_fn(f) if isinstance(x, ast.Assign) and U(x.targets[0]) == "new_term"]
-        want = "_build_factored_term(rem, pref, itmd_cls, itmd_indices)" if name == "_factor_complete" else \
-            "_build_factored_term(rem, most_common_pref, itmd_cls, itmd_indices)"
-        ctx.check(rule, f, len(nt) == 1 and " ".join(U(nt[0].value).split()) == want, f"{name}: factored term from remainder and prefactor",
-                  f"{name}: new term `{U(nt[0].value) if nt else None}`", key=f"{name} new term")
-    fm = ctx.model.fn(FI + "_factor_mixed_prefactors")
-    a = {U(x.targets[0]): U(x.value).replace(" ", "") for x in walk_fn(fm) if isinstance(x, ast.Assign)}
-    ctx.check(rule, fm, a.get("desired_pref") == "most_common_pref*unit_factors[term_i]" and a.get("extension_pref") == "term.pref-desired_pref"
-              and a.get("term") in ("extension_pref*term.num*term.eri/term.denom",),
-              "completion term = (pref - desired pref) * term", f"completion: {a.get('desired_pref')}, {a.get('extension_pref')}, {a.get('term')}",
-              key="mixed completion")
-    sk = [n for n in walk_fn(fm) if isinstance(n, ast.Continue)]
-    ctx.check(rule, fm, len(sk) == 1 and U(sk[0]._parent.test) == "p == most_common_pref or term_i in terms_to_add",
-              "only terms with a different prefactor are completed, once", "selection of terms to complete changed", key="mixed selection")
-    # factor_itmd split
-    fi = ctx.model.fn(IT + "factor_itmd")
-    sp = [n for n in walk_fn(fi) if isinstance(n, ast.For) and U(n.iter) == "zip(terms, term_is_relevant)"]
-    ok = len(sp) == 1 and U(sp[0].body[0]) == "if is_relevant:\n    to_factor += term\nelse:\n    remainder += term.sympy"
-    ctx.check(rule, fi, ok, "every term goes either to the part to factor or to the remainder", "relevant/irrelevant split changed", key="split")
-    fin = sorted(U(x) for x in walk_fn(fi) if isinstance(x, (ast.Assign, ast.AugAssign)) and "remainder" in U(x) and "factored" in U(x))
-    ctx.check(rule, fi, fin == ["factored += remainder", "factored = to_factor + remainder"], "remainder added back in both branches",
-              f"recombination {fin}", key="recombine")
-    early = [U(r.value) for r in common.returns_of(fi)]
-    ctx.check(rule, fi, early == ["expr", "expr", "factored"], "nothing to factor: expression unchanged", f"returns {early}", key="early")
-    top = ctx.model.fn(FI + "factor_intermediates")
-    lp = [n for n in walk_fn(top) if isinstance(n, ast.For) and U(n.iter) == "itmd_to_factor.items()"]
-    ok = len(lp) == 1 and any(U(s) == "expr = itmd_cls.factor_itmd(expr, factored, max_order)" for s in lp[0].body) \
-        and any(U(s) == "factored.append(name)" for s in lp[0].body)
-    ctx.check(rule, top, ok, "intermediates factored one after another on the running expression", "driver loop changed", key="driver")
-    flt = [x for x in walk_fn(top) if isinstance(x, ast.Assign) and isinstance(x.value, ast.DictComp)]
-    ctx.check(rule, top, len(flt) == 1 and [U(i) for i in flt[0].value.generators[0].ifs] == ["itmd_cls.order <= max_order"],
-              "max_order filter", "max_order filter changed", key="max order")
+FACTOR_VOCAB = {"_compare_terms", "_get_remainder", "_build_factored_term", "get_symbols", "_factor_short_intermediate",
+                "_factor_long_intermediate", "EriOrbenergy", "FactorizationTermData", "_factor_complete", "_factor_mixed_prefactors",
+                "_map_on_other_terms", "minimize_tensor_indices", "_compare_remainder", "LongItmdVariants", "order_substitutions",
+                "_prepare_itmd", "itmd_term_map"}
+TERM_WRAPPERS = dict(calls=("EriOrbenergy", "Expr"), mcalls=("canonicalize_sign", "expand"), attrs=("expr", "sympy"))
+
+
+def factor_inline(q):
+    return q.split(":")[-1].split(".")[-1] not in FACTOR_VOCAB
+
+
+def unwrap(t):
+    """value-preserving wrappers of a term removed (splitting into EriOrbenergy, sign canonicalisation, .expr/.sympy, Expr)"""
+    return strip(t, **TERM_WRAPPERS)
+
+
+def peel(t):
+    """outermost value-preserving wrappers removed (the arguments of what is inside stay as they are)"""
+    while isinstance(t, T):
+        if t.op == "call" and t.args[0] in TERM_WRAPPERS["calls"]:
+            a = args_of(t)
+            t = a.get(0, next(iter(a.values()), None) if a else None)
+        elif t.op == "mcall" and t.args[1] in TERM_WRAPPERS["mcalls"]:
+            t = t.args[0]
+        elif t.op == "attr" and t.args[1] in TERM_WRAPPERS["attrs"]:
+            t = t.args[0]
+        else:
+            break
+    return t
+
+
+def split_sum(v):
+    if isinstance(v, T) and v.op == "add":
+        return [x for x in v.args if not (is_num(x) and x == 0)]
+    return [] if (is_num(v) and v == 0) else [v]
+
+
+def is_canonical_split(term, src):
+    """``term`` is EriOrbenergy(src) with the sign canonicalised"""
+    return isinstance(term, T) and term.op == "mcall" and term.args[1] == "canonicalize_sign" and \
+        isinstance(term.args[0], T) and term.args[0].op == "call" and term.args[0].args[0] == "EriOrbenergy" and unwrap(term) == src
+
+
+def same_product(a, b):
+    return repr(canon(a)) == repr(canon(b))
+
+
+def _abstract_expr(name, terms, is_number=False):
+    o = Obj(None, name)
+    o.attrs.update(terms=terms, sympy=Obj(None, f"{name}.sympy", is_number=is_number), assumptions=sym(f"{name}.assumptions"))
+    return o
+
+
+def _variant(eri_i, denom_i, sub, factor):
+    return {"eri_i": list(eri_i), "denom_i": list(denom_i), "sub": {mk_index(k): mk_index(v) for k, v in sub.items()},
+            "sub_list": sym("SUB_LIST"), "factor": factor}
+
+
+SHORT_SCENARIOS = {
+    # name: (default idx, contracted idx of the itmd, itmd has a denominator, variants per term)
+    "one variant": ("ia", "k", True, [[((0,), (0,), {"i": "m", "a": "e"}, "F0")]]),
+    "same objects": ("ia", "k", True, [[((0,), (0,), {"i": "m", "a": "e"}, "F0"), ((0,), (0,), {"i": "l", "a": "d"}, "F1")]]),
+    "disjoint objects": ("ijab", "", True, [[((0,), (0,), {"i": "m", "j": "n"}, "F0"), ((1,), (1,), {"i": "k", "a": "c"}, "F1")]]),
+    "overlapping objects": ("ia", "kc", True, [[((0, 1), (0,), {"i": "m"}, "F0"), ((1, 2), (0,), {"i": "n"}, "F1"), ((3,), (1,), {"a": "e"}, "F2")]]),
+    "no denominator": ("ia", "k", False, [[((0, 0), (), {"i": "m"}, "F0")]]),
+    "no match": ("ia", "k", True, [None]),
+    "two terms": ("ia", "k", True, [[((0,), (0,), {"i": "m"}, "F0")], [((2,), (1,), {"a": "e"}, "G0")]]),
+    "second term unmatched": ("ia", "k", True, [[((1,), (0,), {"i": "m"}, "F0")], None]),
+}
+
+
+def _factored_matches(ctx, s, term_src, variants, compared, extra_ok=None):
+    """``s`` is _build_factored_term(remainder, pref, itmd_cls, itmd_indices) for one of the variants of the term, all
+    four read off the same variant and the very term object that was compared; returns an explanation or None"""
+    if not (isinstance(s, T) and s.op == "call" and s.args[0] == "_build_factored_term"):
+        return f"summand {show(s)[:160]} is neither the unchanged term nor a factored term"
+    a = args_of(s)
+    rem = a.get("remainder")
+    inner = peel(rem)
+    rec = None
+    if isinstance(inner, T) and inner.op == "call" and inner.args[0] == "_factor_short_intermediate":
+        rec = args_of(inner)
+        inner = rec.get("expr")
+    if not (isinstance(inner, T) and inner.op == "call" and inner.args[0] == "_get_remainder"):
+        return f"remainder {show(rem)[:160]} is not the remainder of the term"
+    g = args_of(inner)
+    term = g.get("term")
+    if not is_canonical_split(term, term_src):
+        return f"remainder is taken from {show(term)[:120]}, not from the sign-canonical split of the term"
+    if term not in compared:
+        return f"remainder is taken from {show(term)[:120]}, but another object was compared with the intermediate: {[show(c)[:80] for c in compared]}"
+    if rec is not None:
+        bad = [k for k in ("itmd", "itmd_data", "itmd_cls") if rec.get(k) != sym(k)]
+        if bad:
+            return f"the remainder is factored again with another {bad} than the current intermediate"
+    for v in variants or ():
+        if tuple(g.get("obj_i", ())) != tuple(v["eri_i"]) or tuple(g.get("denom_i", ())) != tuple(v["denom_i"]):
+            continue
+        want_idx = tuple(nm(v["sub"].get(mk_index(d), mk_index(d))) for d in v["_defaults"])
+        if tuple(nm(x) for x in a.get("itmd_indices", ())) != want_idx:
+            continue
+        want_pref = t_mul(T("attr", term, "pref"), v["factor"], t_pow(sym("ITMD_PREF"), -1))
+        if not same_product(a.get("pref"), want_pref):
+            return (f"prefactor {show(a.get('pref'))[:200]} of the factored term, expected term.pref * factor / itmd.pref = "
+                    f"{show(want_pref)[:200]}")
+        if a.get("itmd_cls") != sym("itmd_cls"):
+            return f"factored term built for {show(a.get('itmd_cls'))}"
+        return None
+    return (f"factored term with removed objects {g.get('obj_i')}/{g.get('denom_i')} and itmd indices "
+            f"{tuple(nm(x) for x in a.get('itmd_indices', ()))} mixes data of different variants {[(v['eri_i'], v['denom_i']) for v in variants or ()]}")
+
+
+def conserved(ctx, rule, fn, what, value, sources, judge, key):
+    """the returned sum has exactly one summand per source term; ``judge(k, summand)`` -> explanation | None"""
+    parts = split_sum(value)
+    owner = {}
+    why = None
+    for s in parts:
+        ks = [k for k, src in enumerate(sources) if any(x == src for x in subterms(s))]
+        if len(ks) != 1:
+            why = f"summand {show(s)[:160]} stems from {len(ks)} terms of the input"
+            break
+        owner.setdefault(ks[0], []).append(s)
+    if why is None:
+        for k, src in enumerate(sources):
+            got = owner.get(k, [])
+            if len(got) == 0:
+                why = f"term {show(src)} of the input is lost (the result is {show(value)[:200]})"
+            elif len(got) > 1:
+                why = f"term {show(src)} of the input enters the result {len(got)} times"
+            else:
+                why = judge(k, got[0])
+            if why:
+                break
+    ctx.check(rule, fn, why is None, f"{what}: every term enters the result once, unchanged or factored with the matching prefactor",
+              f"{what}: {why}", key=key)
+    return why is None
+
+
+def r11b_short(ctx):
+    rule = "R11b"
+    fn = ctx.model.fn(FI + "_factor_short_intermediate")
+    n_fact = n_keep = 0
+    for sname, (defaults, contracted, has_denom, per_term) in SHORT_SCENARIOS.items():
+        srcs = [sym(f"t{k}") for k in range(len(per_term))]
+        variants = []
+        for vs in per_term:
+            if vs is None:
+                variants.append(None)
+            else:
+                lst = []
+                for e_i, d_i, sub, f in vs:
+                    v = _variant(e_i, d_i, sub, sym(f))
+                    lst.append(v)
+                variants.append(lst)
+
+        def compare_terms(sx, a, kw):
+            names = ("term", "itmd_term", "term_data", "itmd_term_data")
+            b = dict(zip(names, a))
+            b.update(kw)
+            sx.effects.append(T("compared", b.get("term").term if isinstance(b.get("term"), Obj) else b.get("term"),
+                                nm(b.get("itmd_term")), b.get("term_data"), nm(b.get("itmd_term_data"))))
+            src = unwrap(b["term"]) if isinstance(b.get("term"), T) else None
+            if src not in srcs:
+                return None
+            vs = variants[srcs.index(src)]
+            return None if vs is None else [dict(v) for v in vs]
+
+        def args():
+            D = tuple(mk_index(x) for x in defaults)
+            itmd = Obj(None, "itmd", expr=Obj(None, "itmd.expr", idx=D + tuple(mk_index(x) for x in contracted)), pref=sym("ITMD_PREF"))
+            itmd_data = Obj(None, "itmd_data", eri_obj_descriptions={"V": 1}, denom_bracket_lengths={4: 1} if has_denom else None)
+            cls, _ = _tensor_provider("t9")
+            cls.attrs.update(default_idx=tuple(defaults))
+            return dict(expr=_abstract_expr("expr", list(srcs), is_number=sym("expr.is_number")), itmd=itmd, itmd_data=itmd_data, itmd_cls=cls)
+        sx = Symex(ctx.model, inline=factor_inline, hooks={"get_symbols": get_symbols_model, "_compare_terms": compare_terms},
+                   what=f"_factor_short_intermediate[{sname}]", max_paths=60000)
+        outs = sx.run(fn, args)
+        judged = set()
+        for o in outs:
+            if o.kind == "raise":
+                ctx.check(rule, fn, o.exc == "RuntimeError", f"[{sname}] contracted itmd index inside the remainder refused",
+                          f"_factor_short_intermediate[{sname}] raises {o.exc} on {o.path!r}", key=f"short raise {sname} {o.exc}")
+                continue
+            if any(pol and a == T("attr", sym("expr.sympy"), "is_number") or (pol and a == sym("expr.is_number")) for a, pol in o.path):
+                ctx.check(rule, fn, isinstance(o.value, Obj) and o.value.name == "expr", f"[{sname}] a number is returned unchanged",
+                          f"_factor_short_intermediate of a number returns {o.value!r}", key=f"short number {sname}")
+                continue
+            compared = [e.args[0] for e in o.effects if isinstance(e, T) and e.op == "compared"]
+            wrong = [e for e in o.effects if isinstance(e, T) and e.op == "compared" and (e.args[1] != "itmd" or e.args[3] != "itmd_data")]
+            if wrong:
+                ctx.bad(rule, fn, f"_factor_short_intermediate[{sname}] compares the term with {show(wrong[0])[:200]}, not with the intermediate",
+                        key=f"short compared {sname}")
+            state = []
+
+            def judge(k, s):
+                if unwrap(s) == srcs[k]:
+                    state.append("kept")
+                    return None
+                for v in variants[k] or ():
+                    v["_defaults"] = defaults
+                r = _factored_matches(ctx, s, srcs[k], variants[k], compared)
+                state.append("factored")
+                return r
+            sig = repr(canon(o.value))
+            if sig in judged:
+                continue
+            judged.add(sig)
+            conserved(ctx, rule, fn, f"_factor_short_intermediate[{sname}]", o.value, srcs, judge, key=f"short {sname} {len(judged)}")
+            n_fact += state.count("factored")
+            n_keep += state.count("kept")
+    ctx.floor(rule, "factored terms evaluated in _factor_short_intermediate", n_fact, 8)
+    ctx.floor(rule, "unchanged terms evaluated in _factor_short_intermediate", n_keep, 8)
+
+
+def powers(t):
+    """(coefficient, {factor: exponent}) of a product with integer powers distributed over inner products"""
+    coeff, out = Fraction(1), {}
+
+    def walk(x, e):
+        nonlocal coeff
+        if is_num(x):
+            coeff *= Fraction(x) ** e if x != 0 or e > 0 else 0
+        elif isinstance(x, T) and x.op == "mul":
+            for y in x.args:
+                walk(y, e)
+        elif isinstance(x, T) and x.op == "pow" and isinstance(x.args[1], int):
+            walk(x.args[0], e * x.args[1])
+        else:
+            out[x] = out.get(x, 0) + e
+    walk(t, 1)
+    return coeff, {k: v for k, v in out.items() if v != 0}
+
+
+T2_TERMS = {
+    # name: (eri objects [(description, indices, exponent)], denominator brackets [(matches eri number | None, exponent, is Expr)])
+    "single": ([("oovv", "mnef", 1), ("ovov", "kcld", 1)], [(0, 1, True), (None, 1, True)]),
+    "squared": ([("oovv", "mnef", 2)], [(None, 2, False), (0, 2, False)]),
+    "eri squared only": ([("oovv", "mnef", 2)], [(0, 1, True)]),
+    "bracket squared only": ([("oovv", "mnef", 1)], [(0, 2, False), (None, 1, True)]),
+    "two amplitudes": ([("oovv", "mnef", 1), ("vvvv", "efgh", 1), ("oovv", "klcd", 1)], [(2, 1, True), (None, 3, False), (0, 1, True)]),
+    "shared bracket": ([("oovv", "mnef", 1), ("oovv", "nmef", 1)], [(0, 2, False)]),
+    "bracket used up": ([("oovv", "mnef", 1), ("oovv", "nmef", 1)], [(0, 1, True)]),
+    "nothing to factor": ([("ovov", "kcld", 1), ("oovv", "mnef", 1)], [(None, 1, True), (None, 2, False)]),
+    "no oovv integral": ([("ovov", "kcld", 2)], [(None, 1, True)]),
+}
+
+
+def _dval(names):
+    return ("D",) + tuple(sorted(names))
+
+
+def r11b_t2_1(ctx):
+    """t2_1.factor_itmd on concrete terms: result = prod_j (t2(idx_j)/pref_t2)^m_j * pref * (integrals with j removed m_j times)
+    * num / (denominator with matching brackets removed sum m_j times)"""
+    rule = "R11b"
+    fn = ctx.model.fn("intermediates:t2_1.factor_itmd")
+    n = 0
+    for sname, (eris, brackets) in T2_TERMS.items():
+        for with_denominator in (True, False):
+            def eri_orbenergy(sx, a, kw):
+                x = a[0] if a else kw.get("term")
+                if isinstance(x, T) and x.op == "sym" and str(x.args[0]).startswith("t"):
+                    return term_model(x)
+                # the definition of t2_1 itself
+                t2 = Obj(None, "T2")
+                e0 = Obj(None, "T2.eri0", idx=tuple(mk_index(c) for c in "ijab"), exponent=1)
+                e0.attrs["description"] = lambda sx_, a_, kw_: "oovv"
+
+                def subs(sx_, a_, kw_):
+                    d = dict_of(args_of(a_[0]).get("subsdict", args_of(a_[0]).get(0))) if isinstance(a_[0], T) and a_[0].op == "call" \
+                        else dict(a_[0]) if isinstance(a_[0], (list, dict)) else None
+                    if d is None:
+                        raise AnalysisError(f"R11b: substitution of the t2_1 denominator not understood: {show(a_[0])}")
+                    return _dval([nm(d.get(sym(c), d.get(mk_index(c), c))) for c in "ijab"])
+                can = Obj(None, "T2c", eri=Obj(None, "T2c.eri", objects=[e0]), denom=Obj(None, "T2c.denom", sympy=Obj(None, "T2c.denom.sympy", subs=subs)),
+                          pref=sym("T2_PREF"))
+                t2.attrs["canonicalize_sign"] = lambda sx_, a_, kw_: can
+                return t2
+
+            def term_model(src):
+                k = str(src.args[0])
+                raw = Obj(None, f"split({k})", denom=Obj(None, f"{k}.denom", sympy=Obj(None, f"{k}.denom.sympy", is_number=not with_denominator)),
+                          expr=sym(f"{k}.unchanged"))
+                objs = []
+                for j, (descr, idx, exp) in enumerate(eris):
+                    o = Obj(None, f"{k}.eri{j}", idx=tuple(mk_index(c) for c in idx), exponent=exp)
+                    o.attrs["description"] = lambda sx_, a_, kw_, d=descr: d
+                    objs.append(o)
+                bks = []
+                for b, (match, exp, is_expr) in enumerate(brackets):
+                    val = _dval(eris[match][1]) if match is not None else ("OTHER", b)
+                    if is_expr:
+                        bks.append(Obj("expr_container:Expr", f"{k}.bk{b}", sympy=val))
+                    else:
+                        bks.append(Obj("expr_container:Polynom", f"{k}.bk{b}", base_and_exponent=(val, exp)))
+                can = Obj(None, f"canonical({k})", denom_brackets=bks, eri=Obj(None, f"{k}.eri", objects=objs), pref=sym(f"{k}.pref"),
+                          num=sym(f"{k}.num"), expr=sym(f"{k}.canonical.unchanged"))
+                can.attrs["cancel_denom_brackets"] = lambda sx_, a_, kw_: T("call", f"{k}.denom_without", (tuple(a_[0]),), ())
+                can.attrs["cancel_eri_objects"] = lambda sx_, a_, kw_: T("call", f"{k}.eri_without", (tuple(a_[0]),), ())
+                raw.attrs["canonicalize_sign"] = lambda sx_, a_, kw_: can
+                return raw
+
+            def args():
+                expanded = _abstract_expr("expanded", [sym("t0"), sym("t1")])
+                expr = Obj("expr_container:Expr", "expr", real=True, sympy=Obj(None, "expr.sympy", is_number=False))
+                expr.attrs["expand"] = lambda sx_, a_, kw_: expanded
+                me = rec("intermediates:t2_1", "self", name="t2_1", **class_attrs(ctx.model.cls("intermediates:t2_1")))
+                return dict(self=me, expr=expr, factored_itmds=None, max_order=None)
+            sx = Symex(ctx.model, inline=lambda q: q.split(":")[-1].split(".")[-1] not in ("EriOrbenergy", "order_substitutions", "tensor", "expand_itmd"),
+                       hooks={"EriOrbenergy": eri_orbenergy, "Pow": lambda sx_, a_, kw_: t_pow(a_[0], a_[1])},
+                       what=f"t2_1.factor_itmd[{sname}]")
+            outs = sx.run(fn, args)
+            what = f"t2_1.factor_itmd[{sname}{'' if with_denominator else ', no denominator'}]"
+            if len(outs) != 1 or outs[0].kind != "return":
+                ctx.bad(rule, fn, f"{what}: {outs[:2]}", key=f"t2_1 shape {sname} {with_denominator}")
+                continue
+            parts = split_sum(outs[0].value)
+            why = None
+            if len(parts) != 2:
+                why = f"the two terms of the input give {len(parts)} summands: {show(outs[0].value)[:300]}"
+            for k, part in zip(("t0", "t1"), parts):
+                if why:
+                    break
+                if not with_denominator:
+                    if part != sym(f"{k}.unchanged"):
+                        why = f"a term without denominator becomes {show(part)[:200]}"
+                    continue
+                c, pw = powers(part)
+                tens, other = {}, {}
+                for f, e in pw.items():
+                    if isinstance(f, T) and f.op == "mcall" and f.args[1] == "tensor":
+                        a = args_of(f)
+                        if a.get("return_sympy") is not True:
+                            why = f"tensor requested wrapped: {show(f)}"
+                        tens["".join(nm(x) for x in a.get("indices", ()))] = e
+                    else:
+                        other[f] = e
+                m = {j: tens.get(idx, 0) for j, (d, idx, ex) in enumerate(eris)}
+                if set(tens) - {idx for _, idx, _ in eris}:
+                    why = f"amplitude on indices {sorted(set(tens) - {idx for _, idx, _ in eris})} that belong to no integral of the term"
+                    break
+                E = tuple(sorted(j for j in m for _ in range(m[j])))
+                total = sum(m.values())
+                want_eri = T("call", f"{k}.eri_without", (E,), ())
+                got_eri = [f for f in other if isinstance(f, T) and f.op == "call" and f.args[0] == f"{k}.eri_without"]
+                got_den = [f for f in other if isinstance(f, T) and f.op == "call" and f.args[0] == f"{k}.denom_without"]
+                if c != 1:
+                    why = f"numerical factor {c}"
+                elif len(got_eri) != 1 or other.get(got_eri[0]) != 1 or tuple(sorted(got_eri[0].args[1][0])) != E:
+                    why = (f"the amplitudes introduced are {m} (integral number: power), but the integrals removed are "
+                           f"{[tuple(sorted(g.args[1][0])) for g in got_eri]}: integral and amplitude do not balance")
+                elif len(got_den) != 1 or other.get(got_den[0]) != -1:
+                    why = f"denominator of the result: {[show(g) for g in got_den]}"
+                else:
+                    B = list(got_den[0].args[1][0])
+                    need = {}
+                    for j, mj in m.items():
+                        if mj:
+                            need[_dval(eris[j][1])] = need.get(_dval(eris[j][1]), 0) + mj
+                    have = {}
+                    for b in B:
+                        match = brackets[b][0]
+                        val = _dval(eris[match][1]) if match is not None else ("OTHER", b)
+                        have[val] = have.get(val, 0) + 1
+                    if need != have:
+                        why = (f"amplitudes introduced {m} need the brackets {need} removed, removed are {have} (bracket numbers {B}): "
+                               "integral, bracket and amplitude are not exchanged equally often")
+                    elif any(d != "oovv" for j, (d, _, _) in enumerate(eris) if m[j]):
+                        why = "an integral of another block than oovv is replaced by t2_1"
+                    else:
+                        rest = {f: e for f, e in other.items() if f not in (got_eri[0], got_den[0])}
+                        want = {sym(f"{k}.pref"): 1, sym(f"{k}.num"): 1}
+                        if total:
+                            want[sym("T2_PREF")] = -total
+                        if rest != want:
+                            why = f"remaining factors {({show(f): e for f, e in rest.items()})}, expected {({show(f): e for f, e in want.items()})}"
+                        else:
+                            # everything that can be exchanged is exchanged at least once when a matching pair exists
+                            possible = any(d == "oovv" and any(b[0] is not None and _dval(eris[b[0]][1]) == _dval(idx) for b in brackets)
+                                           for d, idx, _ in eris)
+                            if possible and not total:
+                                why = "a matching integral/bracket pair exists but nothing is factored"
+            n += 1
+            ctx.check(rule, fn, why is None, f"{what}: integral, bracket and amplitude exchanged equally often, rest of the term kept",
+                      f"{what}: {why}", key=f"t2_1 {sname} {with_denominator}")
+    ctx.floor(rule, "terms evaluated in t2_1.factor_itmd", n, 12)
+    # early exits and guards: decision table
+    me_attrs = class_attrs(ctx.model.cls("intermediates:t2_1"))
+    for is_number in (True, False):
+        for factored in (None, (), ("t2_1",), ("t1_2",), ["t1_2", "t2_1"]):
+            for max_order in (None, 0, 1, 2):
+                def args():
+                    expanded = _abstract_expr("expanded", [])
+                    expr = Obj("expr_container:Expr", "expr", real=True, sympy=Obj(None, "expr.sympy", is_number=is_number))
+                    expr.attrs["expand"] = lambda sx_, a_, kw_: expanded
+                    return dict(self=rec("intermediates:t2_1", "self", name="t2_1", **me_attrs), expr=expr, factored_itmds=factored,
+                                max_order=max_order)
+                sx = Symex(ctx.model, inline=lambda q: q.split(":")[-1].split(".")[-1] not in ("EriOrbenergy", "order_substitutions", "tensor", "expand_itmd"),
+                           hooks={"EriOrbenergy": lambda sx_, a_, kw_: Obj(None, "T2", canonicalize_sign=lambda s_, a2, k2: sym("T2c"))},
+                           what="t2_1.factor_itmd early exits")
+                outs = sx.run(fn, args)
+                skip = is_number or (factored is not None and "t2_1" in factored) or (max_order is not None and max_order < 1)
+                ok = len(outs) == 1 and outs[0].kind == "return" and \
+                    ((isinstance(outs[0].value, Obj) and outs[0].value.name == "expr") if skip else outs[0].value == 0)
+                ctx.check(rule, fn, ok, f"t2_1.factor_itmd(number={is_number}, factored={factored}, max_order={max_order}): "
+                          f"{'expression unchanged' if skip else 'terms processed'}",
+                          f"t2_1.factor_itmd(number={is_number}, factored={factored}, max_order={max_order}) gives {outs[:2]}, expected "
+                          f"{'the unchanged expression' if skip else 'the (empty) sum of processed terms'}",
+                          key=f"t2_1 early {is_number} {factored} {max_order}")
+    for tag, ex, exc in (("not an Expr", Obj(None, "expr", real=True, _classes=()), "Inputerror"),
+                         ("complex orbitals", Obj("expr_container:Expr", "expr", real=False), "NotImplementedError")):
+        sx = Symex(ctx.model, inline=lambda q: True, what="t2_1.factor_itmd guards")
+        outs = sx.run(fn, lambda: dict(self=rec("intermediates:t2_1", "self", name="t2_1", **me_attrs), expr=ex, factored_itmds=None, max_order=None))
+        ctx.check(rule, fn, outs and all(o.kind == "raise" and o.exc == exc for o in outs), f"t2_1.factor_itmd: {tag} refused",
+                  f"t2_1.factor_itmd: {tag} gives {outs[:2]}", key=f"t2_1 guard {tag}")
+
+
+class PoolModel:
+    """Model of the LongItmdVariants pool as _factor_complete/_factor_mixed_prefactors use it: a queue of variants per
+    (itmd indices, remainder); a variant is handed out only while none of its terms has been removed; handing out the same
+    variant again and again means the used terms were not removed."""
+
+    def __init__(self, queues, method):
+        self.queues, self.method = queues, method
+        self.used, self.log, self.given = set(), [], []
+        self.obj = Obj(None, "intermediate_variants")
+        self.obj.attrs.update(items=self.items, remove_used_terms=self.remove, clean_empty=self.clean,
+                              **{method: self.get, ("get_mixed_pref_variant" if method == "get_complete_variant" else "get_complete_variant"): self.other})
+
+    def items(self, sx, a, kw):
+        out = {}
+        for (idx, rem) in self.queues:
+            out.setdefault(idx, []).append(rem)
+        return list(out.items())
+
+    def other(self, sx, a, kw):
+        self.log.append(("wrong getter",))
+        return None
+
+    def get(self, sx, a, kw):
+        from ..symex import Raised
+        idx = kw.get("itmd_indices", a[0] if a else None)
+        rem = kw.get("remainder", a[1] if len(a) > 1 else None)
+        for n_v, v in enumerate(self.queues.get((idx, rem), [])):
+            terms = v["terms"]
+            if any(t in self.used for t in terms):
+                continue
+            self.given.append((idx, rem, n_v))
+            if self.given.count((idx, rem, n_v)) > 2:
+                raise Raised("TermsUsedTwice")
+            self.log.append(("get", idx, rem, n_v))
+            if self.method == "get_complete_variant":
+                return v["pref"], list(terms)
+            return list(v["prefs"]), list(terms), dict(v["units"]), dict(v["counter"])
+        self.log.append(("get", idx, rem, None))
+        return None
+
+    def remove(self, sx, a, kw):
+        ts = kw.get("used_terms", a[0] if a else None)
+        self.log.append(("remove", tuple(ts)))
+        self.used |= set(ts)
+
+    def clean(self, sx, a, kw):
+        self.log.append(("clean",))
+
+
+def _long_parts(ctx, fn, what, queues, method, expected_terms):
+    """runs _factor_complete/_factor_mixed_prefactors on the pool model; -> (outcome, pool, factored set) | None"""
+    st = {}
+
+    def args():
+        st["pool"] = PoolModel(queues, method)
+        st["factored"] = {90}
+        cls, _ = _tensor_provider("t9")
+        return dict(result=sym("RESULT"), terms=[sym(f"t{k}") for k in range(8)], itmd_cls=cls, factored_terms=st["factored"],
+                    intermediate_variants=st["pool"].obj)
+    sx = Symex(ctx.model, inline=factor_inline, what=what, max_paths=64)
+    outs = sx.run(fn, args)
+    if len(outs) != 1:
+        ctx.bad("R11b", fn, f"{what}: not one outcome: {outs[:3]}", key=f"{what} shape")
+        return None
+    return outs[0], st["pool"], st["factored"]
+
+
+def r11b_complete(ctx):
+    rule = "R11b"
+    fn = ctx.model.fn(FI + "_factor_complete")
+    I0, I1 = tuple(mk_index(c) for c in "ia"), tuple(mk_index(c) for c in "jb")
+    R0, R1 = sym("REM0"), sym("REM1")
+    tables = {
+        "nothing": {(I0, R0): []},
+        "one": {(I0, R0): [dict(pref=sym("P0"), terms=[0, 1])]},
+        "two in a row": {(I0, R0): [dict(pref=sym("P0"), terms=[0, 1]), dict(pref=sym("P1"), terms=[2, 3])]},
+        "overlapping": {(I0, R0): [dict(pref=sym("P0"), terms=[0, 1]), dict(pref=sym("P1"), terms=[1, 2]), dict(pref=sym("P2"), terms=[3, 3, 4])]},
+        "several pools": {(I0, R0): [dict(pref=sym("P0"), terms=[0, 1])], (I0, R1): [dict(pref=sym("P1"), terms=[1, 2]), dict(pref=sym("P2"), terms=[5])],
+                          (I1, R0): [dict(pref=sym("P3"), terms=[0, 6]), dict(pref=sym("P4"), terms=[6, 7])]},
+    }
+    for name, queues in tables.items():
+        what = f"_factor_complete[{name}]"
+        r = _long_parts(ctx, fn, what, queues, "get_complete_variant", None)
+        if r is None:
+            continue
+        o, pool, factored = r
+        # specification: greedily, pool by pool, every variant whose terms are all still unused
+        used, want_terms, want = set(), [], []
+        for (idx, rem), vs in queues.items():
+            for v in vs:
+                if any(t in used for t in v["terms"]):
+                    continue
+                used |= set(v["terms"])
+                want.append(T("call", "_build_factored_term", (), (("remainder", rem), ("pref", v["pref"]), ("itmd_cls", sym("itmd_cls")),
+                                                                      ("itmd_indices", tuple(x.term for x in idx)))))
+        if o.kind != "return":
+            ctx.bad(rule, fn, f"{what}: {o.exc}: a variant is handed out again because its terms were not removed from the pool "
+                    "(or the same terms are factored twice)" if o.exc == "TermsUsedTwice" else f"{what} raises {o.exc}", key=f"{what} pairing")
+            continue
+        ok_shape = isinstance(o.value, tuple) and len(o.value) == 2
+        res, flag = o.value if ok_shape else (None, None)
+        got = sorted(map(repr, split_sum(res))) if ok_shape else None
+        ctx.check(rule, fn, ok_shape and got == sorted(map(repr, [sym("RESULT")] + want)),
+                  f"{what}: result + one factored term (remainder, common prefactor, tensor on the itmd indices) per complete variant",
+                  f"{what}: returns {show(res)[:400]}, expected RESULT + {[show(w) for w in want]}", key=f"{what} new term")
+        ctx.check(rule, fn, factored == {90} | used and pool.used == used,
+                  f"{what}: the terms of every factored variant are marked as factored and removed from the pool",
+                  f"{what}: factored_terms={sorted(factored)}, removed from the pool={sorted(pool.used)}, expected {sorted(used)} (+ the "
+                  "previously factored term 90): a term that is not marked is added to the result a second time by the caller",
+                  key=f"{what} pairing")
+        ctx.check(rule, fn, flag is bool(want), f"{what}: success flag {bool(want)}", f"{what}: success flag {flag!r}", key=f"{what} flag")
+        ctx.check(rule, fn, ("wrong getter",) not in pool.log, f"{what}: only complete variants", f"{what}: asks for mixed-prefactor variants",
+                  key=f"{what} getter")
+
+
+def r11b_mixed(ctx):
+    rule = "R11b"
+    fn = ctx.model.fn(FI + "_factor_mixed_prefactors")
+    I0, I1 = tuple(mk_index(c) for c in "ia"), tuple(mk_index(c) for c in "jb")
+    R0, R1 = sym("REM0"), sym("REM1")
+    F = Fraction
+    U = {k: sym(f"UNIT{k}") for k in range(8)}
+
+    def var(prefs, terms):
+        c = {}
+        for p_ in prefs:
+            c[p_] = c.get(p_, 0) + 1
+        return dict(prefs=prefs, terms=terms, units={t: U[t] for t in terms}, counter=c)
+    tables = {
+        "nothing": {(I0, R0): []},
+        "one deviating term": {(I0, R0): [var([2, 2, 1], [0, 1, 2])]},
+        "term at two positions": {(I0, R0): [var([F(1, 2), 3, F(1, 2), F(1, 2), 3], [0, 1, 2, 3, 1])]},
+        "negative prefactors": {(I0, R0): [var([-1, 1, -1, -1], [0, 1, 2, 3])], (I1, R1): [var([F(-1, 4), F(-1, 4), F(1, 4)], [4, 5, 6])]},
+        "two in a row": {(I0, R0): [var([2, 2, 1], [0, 1, 2]), var([3, 1, 1], [3, 4, 5])], (I0, R1): [var([1, 1, 5], [2, 6, 7]), var([1, 4, 4], [6, 7, 7])]},
+    }
+    for name, queues in tables.items():
+        what = f"_factor_mixed_prefactors[{name}]"
+        r = _long_parts(ctx, fn, what, queues, "get_mixed_pref_variant", None)
+        if r is None:
+            continue
+        o, pool, factored = r
+        if o.kind != "return":
+            ctx.bad(rule, fn, f"{what}: {o.exc}: a variant is handed out again because its terms were not removed from the pool"
+                    if o.exc == "TermsUsedTwice" else f"{what} raises {o.exc}", key=f"{what} pairing")
+            continue
+        ok_shape = isinstance(o.value, tuple) and len(o.value) == 2
+        res, flag = o.value if ok_shape else (None, None)
+        splits = {}
+        for t in subterms(res) if ok_shape else ():
+            if t.op == "mcall" and t.args[1] == "canonicalize_sign":
+                src = unwrap(t)
+                if is_canonical_split(t, src):
+                    splits.setdefault(src, t)
+        used, want = set(), [sym("RESULT")]
+        missing_split = None
+        for (idx, rem), vs in queues.items():
+            for v in vs:
+                if any(t in used for t in v["terms"]):
+                    continue
+                used |= set(v["terms"])
+                mc = max(v["counter"].items(), key=lambda kv: kv[1])[0]
+                done = set()
+                for p_, t in zip(v["prefs"], v["terms"]):
+                    if p_ == mc or t in done:
+                        continue
+                    done.add(t)
+                    term = splits.get(sym(f"t{t}"))
+                    if term is None:
+                        missing_split = t
+                        continue
+                    # a + 2b + c = z - ...: the term keeps (its prefactor - prefactor it needs inside the intermediate)
+                    want.append(t_mul(t_add(T("attr", term, "pref"), t_mul(-1, mc, v["units"][t])), T("attr", term, "num"), T("attr", term, "eri"),
+                                      t_pow(T("attr", term, "denom"), -1)))
+                want.append(T("call", "_build_factored_term", (), (("remainder", rem), ("pref", mc), ("itmd_cls", sym("itmd_cls")),
+                                                                      ("itmd_indices", tuple(x.term for x in idx)))))
+        got = keyset(res) if ok_shape else None
+        exp = keyset(t_add(*want))
+        ctx.check(rule, fn, ok_shape and missing_split is None and got == exp,
+                  f"{what}: result + intermediate with the most common prefactor + (pref - common pref * unit pref) * term for every deviating term once",
+                  f"{what}: returns {show(res)[:500]}, expected {show(t_add(*want))[:500]}"
+                  + (f" (term {missing_split} is not completed from its sign-canonical split)" if missing_split is not None else ""),
+                  key=f"{what} completion")
+        ctx.check(rule, fn, factored == {90} | used and pool.used == used,
+                  f"{what}: the terms of every factored variant are marked as factored and removed from the pool",
+                  f"{what}: factored_terms={sorted(factored)}, removed from the pool={sorted(pool.used)}, expected {sorted(used)} (+ 90)",
+                  key=f"{what} pairing")
+        ctx.check(rule, fn, flag is (len(want) > 1), f"{what}: success flag", f"{what}: success flag {flag!r}", key=f"{what} flag")
+        ctx.check(rule, fn, ("wrong getter",) not in pool.log, f"{what}: only mixed-prefactor variants", f"{what}: asks for complete variants",
+                  key=f"{what} getter")
+
+
+def keyset(t):
+    """multiset of the distributed products of a term (commutative)"""
+    from ..terms import product_key, multiset
+    return multiset(product_key(c, fs, lambda f: True) for c, fs in expand_products(t))
+
+
+def r11b_long(ctx):
+    """_factor_long_intermediate: (1) every match that enters the pool carries prefactor = term.pref * factor /
+    (n * itmd_term.pref) and unit prefactor = itmd_term.pref * factor * n (n = number of itmd terms the match spreads to,
+    factor = variant factor * sign of the index-minimised tensor), remainder and indices of the same variant;
+    (2) the result is what _factor_complete/_factor_mixed_prefactors return plus every term they did not consume, once."""
+    rule = "R11b"
+    fn = ctx.model.fn(FI + "_factor_long_intermediate")
+    D = tuple(mk_index(c) for c in "ijab")
+    MIN = tuple(mk_index(c) for c in "klcd")
+    # term -> itmd term -> variants (eri_i, denom_i, sub, factor); term 1 is no candidate at all, term 3 has no denominator
+    table = {
+        0: {0: [((0,), (0,), {"i": "m", "j": "n"}, "F00a"), ((1,), (0,), {"i": "m", "j": "n"}, "F00b"), ((1,), (1,), {"i": "n", "j": "m"}, "F00c")],
+            1: [((0, 1), (1,), {"a": "e"}, "F01")]},
+        2: {0: None, 1: [((2,), (0, 0), {"b": "f"}, "F21")]},
+        3: {0: [((0,), (), {}, "F30")], 1: [((0,), (), {}, "F31")]},
+    }
+    spread = {(0, 0): {0, 1}, (0, 1): {1}, (2, 1): {1, 0}, (3, 0): {0}, (3, 1): {1}}
+    consumed = {"complete": [0], "mixed": [2]}
+    for with_sign, dup in ((True, False), (False, True)):
+        st = {}
+
+        def eri_orbenergy(sx, a, kw):
+            x = a[0] if a else kw.get("term")
+            k = int(str(x.args[0])[1:])
+            can = Obj(None, f"TERM{k}", pref=sym(f"t{k}.pref"), eri=Obj(None, f"t{k}.eri", target=(mk_index("x"), mk_index("y"))), src=k)
+            raw = Obj(None, f"split(t{k})")
+            raw.attrs["canonicalize_sign"] = lambda sx_, a_, kw_: can
+            return raw
+
+        def term_data(sx, a, kw):
+            t = a[0] if a else kw.get("term")
+            k = t.attrs["src"]
+            return Obj(None, f"DATA{k}", eri_obj_descriptions={"V": 0 if k == 1 else 2, "f": 1},
+                       denom_bracket_lengths=None if k == 3 else {4: 2}, src=k)
+
+        def compare_terms(sx, a, kw):
+            b = dict(zip(("term", "itmd_term", "term_data", "itmd_term_data"), a))
+            b.update(kw)
+            k, i = b["term"].attrs["src"], b["itmd_term"].attrs["pos"]
+            okd = isinstance(b.get("term_data"), Obj) and b["term_data"].attrs.get("src") == k and \
+                isinstance(b.get("itmd_term_data"), Obj) and b["itmd_term_data"].attrs.get("pos") == i
+            st["compared"].append((k, i, okd))
+            vs = table.get(k, {}).get(i)
+            if vs is None:
+                return None
+            return [dict(_variant(e_i, d_i, sub, sym(f)), _id=(k, i, n_v)) for n_v, (e_i, d_i, sub, f) in enumerate(vs)]
+
+        def minimize(sx, a, kw):
+            idx = kw.get("tensor_indices", a[0] if a else None)
+            st["minimized"].append(tuple(nm(x) for x in idx))
+            return tuple(mk_index(nm(x) + "1") if len(nm(x)) == 1 else x for x in idx), (sym("PERM"),)
+
+        def tensor(sx, a, kw):
+            if kw.get("return_sympy") or (len(a) > 1 and a[1]):
+                return Obj("sympy_objects:NonSymmetricTensor", "TENSOR")
+            idx = tuple(kw.get("indices", a[0] if a else ()))
+            objs = [Obj(None, "tensor_obj", base=Obj("sympy_objects:AntiSymmetricTensor", "tensor_base"), idx=tuple(reversed(idx)),
+                        sympy=Obj(None, "tensor_obj.sympy", is_number=False))]
+            if with_sign:
+                objs.insert(0, Obj(None, "sign_obj", base=Obj(None, "sign_base", _classes=()), sympy=Obj(None, "TSIGN", is_number=True)))
+            t = Obj(None, "tensor_term", objects=objs, _len=len(objs))
+            return Obj(None, "tensor_expr", terms=[t])
+
+        def compare_remainder(sx, a, kw):
+            b = dict(zip(("remainder", "ref_remainder", "itmd_indices"), a))
+            b.update(kw)
+            st["rem_compared"] += 1
+            return 1 if dup else None
+
+        def map_on_other(sx, a, kw):
+            b = dict(zip(("itmd_i", "remainder", "itmd_term_map", "itmd_indices", "itmd_default_idx"), a))
+            b.update(kw)
+            gr = [c for c in subterms(b["remainder"]) if c.op == "call" and c.args[0] == "_get_remainder"]
+            k = int(nm(args_of(gr[0])["term"])[4:]) if gr else None
+            st["mapped"].append((k, b["itmd_i"], b["itmd_term_map"], tuple(nm(x) for x in b["itmd_indices"]),
+                                 tuple(nm(x) for x in b["itmd_default_idx"])))
+            return set(spread.get((k, b["itmd_i"]), {b["itmd_i"]}))
+
+        def variants_cls(sx, a, kw):
+            st["pool_size"] = a[0] if a else kw.get("n_itmd_terms")
+            pool = Obj(None, "POOL")
+            pool.attrs["add"] = lambda sx_, a_, kw_: st["adds"].append((tuple(a_), dict(kw_)))
+            return pool
+
+        def part(tag):
+            def f(sx, a, kw):
+                b = dict(zip(("result", "terms", "itmd_cls", "factored_terms", "intermediate_variants"), a))
+                b.update(kw)
+                st["parts"].append((tag, isinstance(b["intermediate_variants"], Obj) and b["intermediate_variants"].name == "POOL",
+                                    [nm(x) for x in b["terms"]], nm(b["itmd_cls"]), set(b["factored_terms"])))
+                b["factored_terms"].update(consumed[tag])
+                return t_add(b["result"], sym(tag.upper())), tag == "complete"
+            return f
+
+        def args():
+            st.update(compared=[], minimized=[], adds=[], parts=[], mapped=[], rem_compared=0)
+            itmd = [Obj(None, f"itmd{i}", expr=Obj(None, f"itmd{i}.expr", idx=D), pref=sym(f"itmd{i}.pref"), pos=i) for i in range(2)]
+            data = tuple(Obj(None, f"itmd_data{i}", eri_obj_descriptions={"V": 1 + i}, denom_bracket_lengths={4: 1} if i == 0 else None, pos=i)
+                         for i in range(2))
+            cls = Obj(None, "itmd_cls", default_idx=tuple("ijab"), tensor=tensor)
+            return dict(expr=_abstract_expr("expr", [sym(f"t{k}") for k in range(4)]), itmd=itmd, itmd_data=data, itmd_term_map=sym("TERM_MAP"),
+                        itmd_cls=cls)
+        hooks = {"get_symbols": get_symbols_model, "EriOrbenergy": eri_orbenergy, "FactorizationTermData": term_data,
+                 "_compare_terms": compare_terms, "minimize_tensor_indices": minimize, "_compare_remainder": compare_remainder,
+                 "_map_on_other_terms": map_on_other, "LongItmdVariants": variants_cls, "_factor_complete": part("complete"),
+                 "_factor_mixed_prefactors": part("mixed"),
+                 "len": lambda sx_, a_, kw_: a_[0].attrs["_len"] if len(a_) == 1 and isinstance(a_[0], Obj) and "_len" in a_[0].attrs else NotImplemented}
+        sx = Symex(ctx.model, inline=factor_inline, hooks=hooks, what="_factor_long_intermediate", max_paths=256)
+        outs = sx.run(fn, args)
+        tag = "signed tensor" if with_sign else "duplicate remainders"
+        what = f"_factor_long_intermediate[{tag}]"
+        if len(outs) != 1 or outs[0].kind != "return":
+            ctx.bad(rule, fn, f"{what}: {outs[:3]}", key=f"long shape {tag}")
+            continue
+        # (2) conservation
+        parts = sorted(map(repr, split_sum(unwrap(outs[0].value))))
+        left = [k for k in range(4) if k not in consumed["complete"] + consumed["mixed"]]
+        want = sorted(map(repr, [sym("COMPLETE"), sym("MIXED")] + [sym(f"t{k}") for k in left]))
+        ctx.check(rule, fn, parts == want, f"{what}: result = factored parts + every term not consumed by a factorisation, once",
+                  f"{what}: the result consists of {parts}, expected {want} (terms {consumed} are consumed by the factorisations): a term "
+                  "that took part in no factorisation must be added unchanged at the end", key=f"long tail {tag}")
+        okp = [p_[0] for p_ in st["parts"]] == ["complete", "mixed"] and all(p_[1] and p_[2] == [f"t{k}" for k in range(4)] and p_[3] == "itmd_cls"
+                                                                             for p_ in st["parts"]) and \
+            st["parts"][0][4] == set() and st["parts"][1][4] == set(consumed["complete"])
+        ctx.check(rule, fn, okp, f"{what}: complete variants first, then mixed prefactors, on the same pool, terms and bookkeeping set",
+                  f"{what}: factorisation passes called as {st['parts']}", key=f"long passes {tag}")
+        # (1) the matches
+        exp = []
+        candidates = [(k, i) for k in range(4) for i in range(2) if k != 1 and not (k == 3 and i == 0)]
+        for k, i in candidates:
+            seen_idx = set()
+            for n_v, v in enumerate(table.get(k, {}).get(i) or ()):
+                key_ = tuple(v[2].get(c, c) for c in "ijab")
+                if dup and key_ in seen_idx:
+                    continue
+                seen_idx.add(key_)
+                exp.append((k, i, n_v, v))
+        ok_n = len(st["adds"]) == len(exp)
+        why = None if ok_n else f"{len(st['adds'])} matches enter the pool, expected {len(exp)}"
+        for (a_, kw_), (k, i, n_v, (e_i, d_i, sub, f)) in zip(st["adds"], exp):
+            if why:
+                break
+            b = dict(zip(("term_i", "itmd_indices", "remainder", "matching_itmd_terms", "prefactor", "unit_factorization_pref"), a_))
+            b.update(kw_)
+            M = spread.get((k, i), {i})
+            fac = t_mul(sym(f), sym("TSIGN")) if with_sign else sym(f)
+            want_p = t_mul(sym(f"t{k}.pref"), fac, Fraction(1, len(M)), t_pow(sym(f"itmd{i}.pref"), -1))
+            want_u = t_mul(sym(f"itmd{i}.pref"), fac, len(M))
+            img = tuple((sub.get(c, c)) for c in "ijab")
+            want_idx = tuple(reversed(tuple(x + "1" if len(x) == 1 else x for x in img)))
+            rem = b.get("remainder")
+            gr = [c for c in subterms(rem) if c.op == "call" and c.args[0] == "_get_remainder"] if isinstance(rem, T) else []
+            if b.get("term_i") != k:
+                why = f"match of term {k} filed under term {b.get('term_i')}"
+            elif set(b.get("matching_itmd_terms", ())) != M:
+                why = f"match ({k},{i}) spreads to {b.get('matching_itmd_terms')}, the term map gives {M}"
+            elif not same_product(b.get("prefactor"), want_p):
+                why = (f"match (term {k}, itmd term {i}): prefactor {show(b.get('prefactor'))[:200]}, expected term.pref * factor / "
+                       f"(n * itmd_term.pref) = {show(want_p)[:200]}")
+            elif not same_product(b.get("unit_factorization_pref"), want_u):
+                why = (f"match (term {k}, itmd term {i}): unit factorisation prefactor {show(b.get('unit_factorization_pref'))[:200]}, "
+                       f"expected itmd_term.pref * factor * n = {show(want_u)[:200]}")
+            elif tuple(nm(x) for x in b.get("itmd_indices", ())) != want_idx:
+                why = f"match ({k},{i}): itmd indices {tuple(nm(x) for x in b.get('itmd_indices', ()))}, expected {want_idx}"
+            elif len(gr) != 1 or nm(args_of(gr[0])["term"]) != f"TERM{k}" or tuple(args_of(gr[0])["obj_i"]) != tuple(e_i) or \
+                    tuple(args_of(gr[0])["denom_i"]) != tuple(d_i):
+                why = f"match ({k},{i}): remainder {show(rem)[:200]} is not the remainder of variant {n_v}"
+            elif not (rem.op == "mcall" and rem.args[1] == "permute" and rem.args[2] == (sym("PERM"),)):
+                why = f"match ({k},{i}): remainder {show(rem)[:200]} is not permuted like the minimised itmd indices"
+        ctx.check(rule, fn, why is None, f"{what}: {len(exp)} matches with prefactor, unit prefactor, indices and remainder of their own variant",
+                  f"{what}: {why}", key=f"long pref {tag}")
+        okc = all(c[2] for c in st["compared"]) and [(c[0], c[1]) for c in st["compared"]] == candidates
+        ctx.check(rule, fn, okc, f"{what}: only candidates that pass the prescan are compared, each with its own data",
+                  f"{what}: compared (term, itmd term, own data) {st['compared']}", key=f"long candidates {tag}")
+        okm = all(m_[2] == sym("TERM_MAP") and m_[4] == tuple("ijab") for m_ in st["mapped"]) and st.get("pool_size") == 2
+        ctx.check(rule, fn, okm, f"{what}: spreading looked up in the term map of the intermediate on its default indices",
+                  f"{what}: _map_on_other_terms called as {st['mapped']}, pool for {st.get('pool_size')} itmd terms", key=f"long map {tag}")
+    # a number is returned unchanged
+    sx = Symex(ctx.model, inline=factor_inline, what="_factor_long_intermediate number")
+    outs = sx.run(fn, lambda: dict(expr=_abstract_expr("expr", [], is_number=True), itmd=[], itmd_data=(), itmd_term_map=None, itmd_cls=sym("C")))
+    ctx.check(rule, fn, len(outs) == 1 and outs[0].kind == "return" and isinstance(outs[0].value, Obj) and outs[0].value.name == "expr",
+              "_factor_long_intermediate: a number is returned unchanged", f"_factor_long_intermediate of a number: {outs[:2]}", key="long number")
+
+
+def r11b_split(ctx):
+    """RegisteredIntermediate.factor_itmd: the terms are split into candidates and the rest, the candidates go through the
+    short / long factorisation (with the definition prepared for the already factored intermediates), the rest is added
+    back; nothing to do -> the expression comes back unchanged"""
+    rule = "R11b"
+    fn = ctx.model.fn(IT + "factor_itmd")
+    # (order, has an orbital energy denominator)
+    term_specs = [(1, True), (2, False), (2, True), (3, True), (0, False)]
+
+    def mk_terms():
+        out = []
+        for k, (order, denom) in enumerate(term_specs):
+            objs = [Obj(None, f"t{k}.obj0", exponent=1, contains_only_orb_energies=False)]
+            if denom:
+                objs.append(Obj(None, f"t{k}.obj1", exponent=-1, contains_only_orb_energies=True))
+                objs.append(Obj(None, f"t{k}.obj2", exponent=-1, contains_only_orb_energies=False))
+            out.append(Obj(None, f"t{k}", order=order, objects=objs, sympy=T("attr", sym(f"t{k}"), "sympy")))
+        return out
+
+    def scenario(itype, order, n_itmd_terms, factored=("t2_1",), max_order=None, name="x9_9", is_number=False, real=True, is_expr=True):
+        st = {"prepared": []}
+
+        def prepare(sx, a, kw):
+            st["prepared"].append(kw.get("factored_itmds", a[0] if a else None))
+            return Obj(None, "itmd_expr", terms=[sym(f"i{j}") for j in range(n_itmd_terms)])
+
+        def args():
+            st["prepared"] = []
+            expanded = _abstract_expr("expanded", mk_terms())
+            expr = rec("expr_container:Expr" if is_expr else None, "expr", real=real, sympy=Obj(None, "expr.sympy", is_number=is_number),
+                       expand=lambda sx_, a_, kw_: expanded, **({} if is_expr else {"_classes": ()}))
+            me = rec("intermediates:RegisteredIntermediate", "self", name=name, _order=order, _itmd_type=itype, _prepare_itmd=prepare,
+                     itmd_term_map=lambda sx_, a_, kw_: T("call", "TERM_MAP", (tuple(kw_.get("factored_itmds", a_[0] if a_ else ())),), ()))
+            return dict(self=me, expr=expr, factored_itmds=factored, max_order=max_order)
+        sx = Symex(ctx.model, inline=factor_inline, what="RegisteredIntermediate.factor_itmd", max_paths=64)
+        return sx.run(fn, args), st
+
+    def through(v, n_itmd_terms, problems):
+        """the argument of the (value preserving) factorisation calls, their other arguments checked"""
+        depth = 0
+        while isinstance(v, T) and v.op == "call" and v.args[0] in ("_factor_short_intermediate", "_factor_long_intermediate"):
+            a = args_of(v)
+            short = v.args[0] == "_factor_short_intermediate"
+            if short != (n_itmd_terms == 1):
+                problems.append(f"{v.args[0]} used for a definition of {n_itmd_terms} term(s)")
+            itmds = [a.get("itmd")] if short else list(a.get("itmd") or ())
+            datas = [a.get("itmd_data")] if short else list(a.get("itmd_data") or ())
+            if len(itmds) != n_itmd_terms or any(not is_canonical_split(x, sym(f"i{j}")) for j, x in enumerate(itmds)):
+                problems.append(f"the intermediate handed over is {[show(x)[:80] for x in itmds]}, not the sign-canonical split terms of the prepared definition")
+            elif [args_of(d).get("term") if isinstance(d, T) and d.op == "call" and d.args[0] == "FactorizationTermData" else None
+                  for d in datas] != itmds:
+                problems.append(f"the term data {[show(d)[:80] for d in datas]} do not belong to the terms of the definition")
+            if a.get("itmd_cls") != sym("self"):
+                problems.append(f"factored for the class {show(a.get('itmd_cls'))}")
+            if not short and not (isinstance(a.get("itmd_term_map"), T) and a["itmd_term_map"].op == "call" and a["itmd_term_map"].args[0] == "TERM_MAP"):
+                problems.append(f"term map {show(a.get('itmd_term_map'))}")
+            v = a.get("expr")
+            depth += 1
+        return v, depth
+
+    n = 0
+    for itype, order, n_terms, factored in (("t_amplitude", 2, 1, ("t2_1",)), ("t_amplitude", 1, 3, ["t2_1", "t1_2"]), ("mp_density", 2, 2, None),
+                                            ("mp_density", 1, 1, ()), ("re_residual", 3, 2, ("t2_1",)), ("t_amplitude", 4, 2, ())):
+        outs, st = scenario(itype, order, n_terms, factored)
+        what = f"factor_itmd[{itype}, order {order}, {n_terms} itmd term(s)]"
+        if len(outs) != 1 or outs[0].kind != "return":
+            ctx.bad(rule, fn, f"{what}: {outs[:2]}", key=f"split shape {itype} {order} {n_terms}")
+            continue
+        relevant = [k for k, (o, d) in enumerate(term_specs) if o >= order and (d or itype != "t_amplitude")]
+        v = outs[0].value
+        if not relevant:
+            ctx.check(rule, fn, isinstance(v, Obj) and v.name in ("expr", "expanded"), f"{what}: no candidate term -> expression unchanged",
+                      f"{what}: no term qualifies but the result is {v!r}", key=f"split none {itype} {order} {n_terms}")
+            n += 1
+            continue
+        problems = []
+        inside, outside, depth = [], [], 0
+        for part in split_sum(v) if isinstance(v, T) else []:
+            inner, d = through(part, n_terms, problems)
+            if d:
+                depth = d
+                inside += [repr(x) for x in split_sum(unwrap(inner))]
+            else:
+                outside.append(repr(unwrap(part)))
+        want_in = sorted(f"t{k}" for k in relevant)
+        want_out = sorted(f"t{k}" for k in range(len(term_specs)) if k not in relevant)
+        n += 1
+        ctx.check(rule, fn, sorted(inside) == want_in and sorted(outside) == want_out and not problems,
+                  f"{what}: candidates {want_in} factored, {want_out} added back, every term once",
+                  f"{what}: terms inside the factorisation {sorted(inside)} (expected {want_in}), added back {sorted(outside)} (expected "
+                  f"{want_out}){'; ' + '; '.join(problems) if problems else ''}; result {show(v)[:300]}", key=f"split {itype} {order} {n_terms}")
+        max_present = max(o for o, _ in term_specs)
+        want_depth = 1 if n_terms == 1 else max_present // order
+        ctx.check(rule, fn, depth == want_depth, f"{what}: factorisation applied {want_depth} time(s)",
+                  f"{what}: the factorisation is applied {depth} times, expected {want_depth} (max order of the terms // order of the intermediate)",
+                  key=f"split repeats {itype} {order} {n_terms}")
+        want_f = tuple(factored or ())
+        ctx.check(rule, fn, st["prepared"] and all(isinstance(x, tuple) and x == want_f for x in st["prepared"]),
+                  f"{what}: definition prepared with the already factored intermediates {want_f}",
+                  f"{what}: _prepare_itmd called with {st['prepared']}, expected {want_f}", key=f"split prepared {itype} {order} {n_terms}")
+    ctx.floor(rule, "splits evaluated in factor_itmd", n, 5)
+    # nothing to do: decision table
+    for is_number in (False, True):
+        for name in ("x9_9", "t4_2"):
+            for factored in ((), ("x9_9",), ("t2_1",)):
+                for max_order in (None, 1, 2, 3):
+                    outs, st = scenario("mp_density", 2, 1, factored, max_order, name, is_number)
+                    skip = is_number or name in factored or name == "t4_2" or (max_order is not None and max_order < 2)
+                    unchanged = len(outs) == 1 and outs[0].kind == "return" and isinstance(outs[0].value, Obj) and outs[0].value.name == "expr"
+                    processed = len(outs) == 1 and outs[0].kind == "return" and isinstance(outs[0].value, T) and bool(st["prepared"])
+                    ctx.check(rule, fn, unchanged if skip else processed,
+                              f"factor_itmd(number={is_number}, name={name}, factored={factored}, max_order={max_order}): "
+                              f"{'unchanged' if skip else 'factored'}",
+                              f"factor_itmd(number={is_number}, name={name}, order 2, factored={factored}, max_order={max_order}) gives {outs[:2]}, "
+                              f"expected {'the unchanged expression' if skip else 'a factorisation'}", key=f"early {is_number} {name} {factored} {max_order}")
+    for tag, kw, exc in (("not an Expr", dict(is_expr=False), "TypeError"), ("complex orbitals", dict(real=False), "NotImplementedError")):
+        outs, st = scenario("mp_density", 2, 1, **kw)
+        ctx.check(rule, fn, outs and all(o.kind == "raise" and o.exc == exc for o in outs), f"factor_itmd: {tag} refused",
+                  f"factor_itmd: {tag} gives {outs[:2]}", key=f"split guard {tag}")
+
+
+def r11b_driver(ctx):
+    """factor_intermediates: the requested intermediates (filtered by max_order) are factored one after another on the running
+    expression, each being told which ones were factored before it"""
+    rule = "R11b"
+    fn = ctx.model.fn(FI + "factor_intermediates")
+    orders = {"t2_1": 1, "t1_2": 2, "p0_2_oo": 2, "t2_3": 3, "p0_3_vv": 3}
+    types = {"t_amplitude": ["t2_1", "t1_2", "t2_3"], "mp_density": ["p0_2_oo", "p0_3_vv"]}
+    for request, max_order in ((None, None), (None, 2), ("mp_density", None), (["t_amplitude", "p0_3_vv"], 2), (("t1_2", "t2_1"), None),
+                               ("t2_3", 2), ([], None)):
+        st = {"calls": []}
+
+        def intermediates(sx, a, kw):
+            def itmd(name):
+                def factor_itmd(sx_, a_, kw_):
+                    b = dict(zip(("expr", "factored_itmds", "max_order"), a_))
+                    b.update(kw_)
+                    st["calls"].append((name, b["expr"], tuple(b.get("factored_itmds") or ()), b.get("max_order")))
+                    return T("call", f"FACTOR[{name}]", (b["expr"].term if isinstance(b["expr"], Obj) else b["expr"],), ())
+                return rec(None, name, order=orders[name], factor_itmd=factor_itmd, name=name)
+            objs = {n_: itmd(n_) for n_ in orders}
+            o = Obj(None, "Intermediates()", available=dict(objs))
+            for t_, ns in types.items():
+                o.attrs[t_] = {n_: objs[n_] for n_ in ns}
+            for n_ in orders:
+                o.attrs[n_] = {n_: objs[n_]}
+            return o
+
+        def args():
+            st["calls"] = []
+            expr = rec("expr_container:Expr", "expr", sympy=Obj(None, "expr.sympy", is_number=False), terms=[],
+                       substitute_contracted=lambda sx_, a_, kw_: T("mcall", sym("expr"), "substitute_contracted", (), ()))
+            return dict(expr=expr, types_or_names=request, max_order=max_order)
+        sx = Symex(ctx.model, inline=lambda q: q.split(":")[-1].split(".")[-1] not in ("EriOrbenergy",),
+                   hooks={"Intermediates": intermediates, "perf_counter": lambda sx_, a_, kw_: 0,
+                          "len": lambda sx_, a_, kw_: 0 if len(a_) == 1 and isinstance(a_[0], (T, Obj)) else NotImplemented},
+                   what="factor_intermediates", max_paths=64)
+        outs = sx.run(fn, args)
+        if request is None:
+            names = list(orders)
+        else:
+            names = []
+            for r in ([request] if isinstance(request, str) else request):
+                names += [n_ for n_ in (types.get(r) or [r]) if n_ not in names]
+        if max_order is not None:
+            names = [n_ for n_ in names if orders[n_] <= max_order]
+        what = f"factor_intermediates({request}, max_order={max_order})"
+        if len(outs) != 1 or outs[0].kind != "return":
+            ctx.bad(rule, fn, f"{what}: {outs[:2]}", key=f"driver shape {request} {max_order}")
+            continue
+        running = sym("expr")
+        want_calls = []
+        for k, n_ in enumerate(names):
+            want_calls.append((n_, running, tuple(names[:k]), max_order))
+            running = T("call", f"FACTOR[{n_}]", (running,), ())
+        got_calls = [(c[0], c[1].term if isinstance(c[1], Obj) else c[1], c[2], c[3]) for c in st["calls"]]
+        ctx.check(rule, fn, got_calls == want_calls, f"{what}: {names} factored one after another on the running expression",
+                  f"{what}: factor_itmd calls (name, expression, factored before, max_order) {[(c[0], show(c[1])[:60], c[2], c[3]) for c in got_calls]}, "
+                  f"expected {[(c[0], show(c[1])[:60], c[2], c[3]) for c in want_calls]}", key=f"driver {request} {max_order}")
+        v = outs[0].value
+        ok = isinstance(v, T) and v.op == "mcall" and v.args[1] == "substitute_contracted" and v.args[0] == running
+        ctx.check(rule, fn, ok, f"{what}: the last factored expression is returned (contracted indices minimised)",
+                  f"{what}: returns {show(v)[:200]}, expected {show(running)[:200]}.substitute_contracted()", key=f"driver result {request} {max_order}")
+    sx = Symex(ctx.model, inline=lambda q: True, what="factor_intermediates guards")
+    outs = sx.run(fn, lambda: dict(expr=rec("expr_container:Expr", "expr", sympy=Obj(None, "expr.sympy", is_number=True)), types_or_names=None,
+                                   max_order=None))
+    ctx.check(rule, fn, len(outs) == 1 and outs[0].kind == "return" and isinstance(outs[0].value, Obj), "factor_intermediates: a number comes back unchanged",
+              f"factor_intermediates of a number: {outs[:2]}", key="driver number")
+    outs = sx.run(fn, lambda: dict(expr=Obj(None, "expr", _classes=()), types_or_names=None, max_order=None))
+    ctx.check(rule, fn, outs and all(o.kind == "raise" for o in outs), "factor_intermediates: something that is no Expr refused",
+              f"factor_intermediates of a non-Expr: {outs[:2]}", key="driver guard")
+
+
+def r11b(ctx):
+    for f in (r11b_t2_1, r11b_short, r11b_long, r11b_complete, r11b_mixed, r11b_split, r11b_driver):
+        f(ctx)
 
 
 def _tensor_provider(names):
@@ -653,10 +1571,7 @@ def tensor_names_model(model, renamed=None):
     return o, flds
 
 
-def tensor_index(name):
-    o = mk_index(name)
-    o.attrs.update(_classes=("Index",), dummy_index=0)
-    return o
+tensor_index = mk_index
 
 
 class TensorWorld:
